@@ -141,6 +141,7 @@ type seqResult struct {
 	inconclusive []string
 	strays       []stray
 	closed       map[int]string  // conn -> reason the server side ended it
+	abandoned    map[int]string  // stream conn: the server has no goroutine serving it any more, yet left it open
 	deadlock     *deadlockReport // NATS: workers proven parked for good on the write mutex
 	desync       map[int]int     // stream conn -> index of the well-formed request the server rejected as malformed
 	byOpid       map[string]*request
@@ -244,26 +245,42 @@ func waitFor(deadline time.Time, cond func() bool) bool {
 const watchdog = 20 * time.Second
 
 // sendWithWatchdog runs a blocking send; false = still blocked at the deadline.
-func sendWithWatchdog(deadline time.Time, send func() error) (error, bool) {
+func sendWithWatchdog(deadline time.Time, send func() error, abort ...func() bool) (error, bool) {
 	done := make(chan error, 1)
 	go func() { done <- send() }()
-	select {
-	case err := <-done:
-		return err, true
-	case <-time.After(time.Until(deadline)):
-		return nil, false
+	tick := time.NewTicker(50 * time.Millisecond)
+	defer tick.Stop()
+	for {
+		select {
+		case err := <-done:
+			return err, true
+		case <-tick.C:
+			if time.Now().After(deadline) {
+				return nil, false
+			}
+			for _, a := range abort {
+				if a() {
+					return nil, false
+				}
+			}
+		}
 	}
 }
 
 // runStreamConn drives one connection of a simple-server (or shared) leg.
-func runStreamConn(s *seqSpec, c int, raw rig.RawConn, res *seqResult, barrier func(deadline time.Time) bool) {
+func runStreamConn(s *seqSpec, c int, raw rig.RawConn, res *seqResult, barrier func(deadline time.Time) bool, probe *abandonProbe) {
 	deadline := time.Now().Add(watchdog)
 	var closed int32
+	var got int64
+	if probe != nil {
+		probe.progress = func() int64 { return atomic.LoadInt64(&got) }
+	}
 	collected := make(chan struct{})
 	go func() {
 		defer close(collected)
 		for f := range raw.Replies() {
 			res.attribute(c, f, "stream")
+			atomic.AddInt64(&got, 1)
 		}
 		reason := "closed"
 		select {
@@ -278,7 +295,10 @@ func runStreamConn(s *seqSpec, c int, raw rig.RawConn, res *seqResult, barrier f
 	}()
 	// the server treated a well-formed frame as malformed: from here on the
 	// connection is in the state the design's guard describes - stop using it
-	isClosed := func() bool { return atomic.LoadInt32(&closed) == 1 || res.isDesync(c) }
+	isClosed := func() bool { return atomic.LoadInt32(&closed) == 1 || res.isDesync(c) || probe.check() }
+	if probe != nil {
+		probe.last = time.Now()
+	}
 	tainted := false
 	stuck := false
 	if s.burst {
@@ -286,7 +306,7 @@ func runStreamConn(s *seqSpec, c int, raw rig.RawConn, res *seqResult, barrier f
 		for _, r := range s.perConn[c] {
 			all = append(all, r.frame...)
 		}
-		if _, ok := sendWithWatchdog(deadline, func() error { return raw.Send(all) }); !ok {
+		if _, ok := sendWithWatchdog(deadline, func() error { return raw.Send(all) }, probe.check); !ok && !probe.check() {
 			res.inconc(fmt.Sprintf("sequence %d (%s/%s): the one-write burst is still blocked after %v", s.id, s.leg, s.proto, watchdog))
 			stuck = true
 		}
@@ -296,7 +316,11 @@ func runStreamConn(s *seqSpec, c int, raw rig.RawConn, res *seqResult, barrier f
 		if s.burst || res.isDesync(c) {
 			break
 		}
-		err, ok := sendWithWatchdog(deadline, func() error { return raw.Send(r.frame) })
+		err, ok := sendWithWatchdog(deadline, func() error { return raw.Send(r.frame) }, probe.check)
+		if !ok && probe.check() {
+			stuck = true
+			break
+		}
 		if !ok {
 			res.inconc(fmt.Sprintf("sequence %d (%s/%s): sending request %d (%s) on connection %d is still blocked after %v (server not reading)", s.id, s.leg, s.proto, r.idx, r.kindName(), c, watchdog))
 			stuck = true
@@ -339,9 +363,10 @@ func runStreamConn(s *seqSpec, c int, raw rig.RawConn, res *seqResult, barrier f
 				res.inconc(fmt.Sprintf("sequence %d (%s/%s): server did not finish all frames within %v", s.id, s.leg, s.proto, watchdog))
 			}
 			sn := s.sentinel[c]
-			err, ok := sendWithWatchdog(deadline, func() error { return raw.Send(sn.frame) })
+			err, ok := sendWithWatchdog(deadline, func() error { return raw.Send(sn.frame) }, probe.check)
 			if !ok || err != nil {
-				if !ok {
+				if !ok && probe.check() {
+				} else if !ok {
 					res.inconc(fmt.Sprintf("sequence %d (%s/%s): barrier request on connection %d blocked", s.id, s.leg, s.proto, c))
 				} else {
 					sn.sendErr = err.Error()
@@ -350,6 +375,11 @@ func runStreamConn(s *seqSpec, c int, raw rig.RawConn, res *seqResult, barrier f
 				res.inconc(fmt.Sprintf("sequence %d (%s/%s): barrier request on connection %d unanswered after %v", s.id, s.leg, s.proto, c, watchdog))
 			}
 		}
+	}
+	if v := probe.result(); v != "" {
+		res.mu.Lock()
+		res.abandoned[c] = v
+		res.mu.Unlock()
 	}
 	wasClosed := atomic.LoadInt32(&closed) == 1
 	raw.Close()
@@ -366,7 +396,7 @@ func runStreamConn(s *seqSpec, c int, raw rig.RawConn, res *seqResult, barrier f
 
 // runSequence executes one sequence against a fresh server.
 func runSequence(s *seqSpec, broker *rig.NatsServer) *seqResult {
-	res := &seqResult{closed: map[int]string{}, desync: map[int]int{}, byOpid: map[string]*request{}, pf: rig.TProtocolFactory(s.proto)}
+	res := &seqResult{closed: map[int]string{}, abandoned: map[int]string{}, desync: map[int]int{}, byOpid: map[string]*request{}, pf: rig.TProtocolFactory(s.proto)}
 	for _, r := range s.reqs {
 		res.byOpid[r.opid] = r
 	}
@@ -375,15 +405,14 @@ func runSequence(s *seqSpec, broker *rig.NatsServer) *seqResult {
 	}
 	switch s.leg {
 	case "pipe", "tcp":
-		leg, err := e2e.StartLeg(s.leg, s.proto, nil, rig.LegOptions{})
+		leg, err := startStreamLeg(s.leg, s.proto)
 		if err != nil {
 			res.inconc("cannot start leg: " + err.Error())
 			return res
 		}
-		leg.Handler.Behave = behave
 		var wg sync.WaitGroup
 		for c := range s.perConn {
-			raw, err := leg.OpenRaw()
+			raw, key, err := leg.open()
 			if err != nil {
 				res.inconc("cannot open connection: " + err.Error())
 				continue
@@ -391,18 +420,18 @@ func runSequence(s *seqSpec, broker *rig.NatsServer) *seqResult {
 			wg.Add(1)
 			go func(c int) {
 				defer wg.Done()
-				runStreamConn(s, c, raw, res, nil)
+				runStreamConn(s, c, raw, res, nil, &abandonProbe{leg: leg, key: key})
 			}(c)
 		}
 		wg.Wait()
-		leg.Stop()
+		leg.stop()
 	case "shared":
 		leg := startSharedLeg(s.proto, s.conns)
 		raw := rig.NewStreamRaw(leg.client)
 		sent := int64(len(s.perConn[0]))
 		runStreamConn(s, 0, raw, res, func(deadline time.Time) bool {
 			return waitFor(deadline, func() bool { return atomic.LoadInt64(&leg.finished) >= sent })
-		})
+		}, nil)
 		leg.stop()
 		if n := atomic.LoadInt64(&leg.procErrs); n > 0 {
 			res.notes = append(res.notes, fmt.Sprintf("process-error:%d:%v", n, leg.firstErr.Load()))
@@ -628,6 +657,52 @@ func judge(run verdictSink, s *seqSpec, res *seqResult) {
 			}
 		}
 		skip[s.sentinel[c]] = true
+	}
+	for c, how := range res.abandoned {
+		// the last request the server still answered on that connection
+		lastAnswered, pos := (*request)(nil), -1
+		for i, q := range s.perConn[c] {
+			if q.replyCount() > 0 {
+				lastAnswered, pos = q, i
+			}
+		}
+		after := "nothing"
+		if lastAnswered != nil {
+			after = lastAnswered.kindName()
+		}
+		unanswered := 0
+		for i, q := range s.perConn[c] {
+			if i > pos && q.replyCount() == 0 {
+				if !q.oneway {
+					unanswered++
+				}
+				skip[q] = true // consequences of the one event
+			}
+		}
+		skip[s.sentinel[c]] = true
+		var next *request
+		if pos+1 < len(s.perConn[c]) {
+			next = s.perConn[c][pos+1]
+		}
+		nk := "none"
+		if next != nil {
+			nk = next.kindName()
+		}
+		if unanswered == 0 {
+			continue // nothing was owed on this connection (only oneways / optional replies)
+		}
+		sig, how2 := "C14:connection-abandoned:", "stopped serving connection %d without closing it (two goroutine dumps 1.5 s apart, no reply in between: no goroutine in FSimpleServer.accept for this connection's transport)"
+		if how == "idle" {
+			sig, how2 = "C14:request-consumed-without-reply:", "consumed everything sent on connection %d and is parked waiting for the size prefix of a next frame (two goroutine dumps 1.5 s apart, no reply in between; a simple server works a connection off sequentially)"
+		}
+		run.Violation(sig+s.leg+":"+s.proto+":after-"+after,
+			fmt.Sprintf("the server "+how2+"; the last answered request was %s, the next one (%s) and %d two-way requests in all were never answered", c, after, nk, unanswered),
+			witness(next, map[string]interface{}{"connection": c, "last_answered_kind": after, "last_answered_frame_hex": func() string {
+				if lastAnswered == nil {
+					return ""
+				}
+				return hexCap(lastAnswered.frame, 1500)
+			}()}))
 	}
 	if res.deadlock != nil {
 		// which request did it: the first reply-over-limit request without a reply
